@@ -34,7 +34,7 @@ def _corpus(chk):
 def run(chk):
     chk.build_js()
     quick = chk.tier == "quick"
-    passes = [_corpus] + ([_pass(chk.seed * 100 + 7, 6000, "rt(random)")] if quick else
+    passes = [_corpus] + ([_pass(chk.seed * 100 + 7, 30000, "rt(random)")] if quick else
                           [_pass(chk.seed * 100 + k, 25000, f"rt(random#{k})") for k in range(8)])
     return vcheck.generic_run(chk, MODULES, AUDIT, passes,
         [PID + ": Model/{JsVal,RT,Validate,Parse,Report}.lean model codegen-v2.ts:34-2430 and err.ts by hand; property names outside the modelled vocabulary "
